@@ -39,6 +39,8 @@ def gen_pvalue(rng: random.Random, prof: Dict[str, Any], depth: int = 0) -> Any:
 
 def gen_pdoc(rng: random.Random, prof: Dict[str, Any]) -> Any:
     n = rng.randint(1, prof["max_children"] + 1)
+    if rng.random() < 0.04:
+        n = 0  # the empty document is falsy: "if not doc" is not "is None"
     if rng.random() < 0.65:
         return {rng.choice(prof["keys"]): gen_pvalue(rng, prof, 1) for _ in range(n)}
     return [gen_pvalue(rng, prof, 1) for _ in range(n)]
